@@ -172,3 +172,19 @@ spec fn top_fun_from(fs: Seq<Flow>, lo: int, k: int) -> int
     if k <= lo { -1 } else if fs[k - 1] is Fun { k - 1 } else { top_fun_from(fs, lo, k - 1) }
 }
 spec fn top_fun(s: &State) -> int { top_fun_from(s.flow_stack@, s.ctx.fs_len as int, s.flow_stack@.len() as int) }
+
+// what build0 does with an error `e` of build1 that left the state `mid`
+spec fn build0_err(mid: State, fin: State, e: Xerr) -> bool {
+    if mid.last_error is Some {
+        // already attributed (run-time error inside the source): kept as it is
+        fin == mid
+    } else {
+        fin.last_error is Some && fin.last_error->0.err == e
+        && fin.last_token is None
+        && (mid.last_token is None ==> fin.last_error->0.location is None)
+        && (mid.last_token is Some ==> fin.last_error->0.location == token_location_spec(mid.sources@, mid.last_token->0))
+        && fin == (State { last_error: fin.last_error, last_token: None, ..mid })
+    }
+}
+pub uninterp spec fn build1_post(s: State) -> State;
+pub uninterp spec fn token_location_spec(sources: Seq<(Xstr, Xstr)>, tok: Xsubstr) -> Option<TokenLocation>;
